@@ -54,3 +54,14 @@ Definition outcome_follows_sent (o : outcome) : Prop :=
       /\ nlog LogSent (o_logs o) = 0%nat
   end.
 
+
+(* the location class a query belongs to: client-subnet when the location came from the
+   ECS option, otherwise by location id (0,0 none; 0,1 default; 0,2 fallback default;
+   anything else a resolver location) *)
+Definition id_class (id0 id1 : N) : ckey :=
+  if (id0 =? 0) && (id1 =? 0) then KLocEmpty
+  else if (id0 =? 0) && (id1 =? 1) then KLocDefault
+  else if (id0 =? 0) && (id1 =? 2) then KLocFallback
+  else KLocResolver.
+Definition true_loc_class (via_ecs : bool) (id0 id1 : N) : ckey :=
+  if via_ecs then KLocEcs else id_class id0 id1.
